@@ -624,7 +624,8 @@ func sprintfQueryKeys(f *FuncInfo) []qkey {
 			}
 			escaped := false
 			if vi >= 0 && vi+1 < len(call.Args) {
-				if ac, ok := ast.Unparen(call.Args[vi+1]).(*ast.CallExpr); ok && (calleeIs(info, ac, "net/url", "QueryEscape") || calleeIs(info, ac, "net/url", "PathEscape")) {
+				if ac, ok := ast.Unparen(call.Args[vi+1]).(*ast.CallExpr); ok && calleeIs(info, ac, "net/url", "QueryEscape") {
+					// PathEscape is not enough in a query: it leaves `+`, `&` and `=` as they are
 					escaped = true
 				}
 			}
